@@ -39,7 +39,7 @@ type c18Graph struct {
 var c18Names = []string{"a", "b", "c", "d", "e", "f", "g", "h"}
 
 // c18Odd are spellings used instead of a..h in some graphs: ids are compared as text, whatever they contain.
-var c18Odd = map[string]string{"a": "build%20arm", "b": "b-1", "c": "_c", "d": "d%sx", "e": "e_e", "f": "f%d", "g": "g.g", "h": "100%"}
+var c18Odd = map[string]string{"a": "build%20arm", "b": "b-1", "c": "null", "d": "d%sx", "e": "e_e", "f": "f%d", "g": "g.g", "h": "100%"}
 
 func c18Case(c *Chooser, s string) string {
 	if c.Weighted("world.case", 1, 5) {
@@ -302,6 +302,11 @@ func c18Multi(c *Chooser, env *Env) *Outcome {
 		models = append(models, g.model())
 	}
 	if viaWalk {
+		if c.Weighted("world.dotfile", 1, 3) {
+			// files that are no workflows lie next to them (a placeholder, an editor's leftovers)
+			disk.Put("/w/r/.github/workflows/.gitkeep", []byte(""))
+			disk.Put("/w/r/.github/workflows/g1.yml.orig", []byte("not a workflow\n"))
+		}
 		w.API, w.Files = APIRepo, []string{""}
 	} else {
 		w.Files = names
